@@ -12,6 +12,8 @@ import traceback
 from . import vbuild, tlc, tracecheck
 
 VERIF = vbuild.VERIF
+# where evidence/ and replays/ are written (redirect with VERIF_OUT when running against a mutated copy of /repo)
+OUT = os.environ.get("VERIF_OUT", VERIF)
 
 
 class Ctx(object):
@@ -151,8 +153,8 @@ class Ctx(object):
                 if key not in [k for k, _ in self.known_hits]:
                     self.known_hits.append((key, f.get("what", what)))
                 return False
-        os.makedirs(os.path.join(VERIF, "replays"), exist_ok=True)
-        path = os.path.join(VERIF, "replays", "%s-%s-%d-%d.json" % (self.pid, self.tier, self.seed, len(self.violations)))
+        os.makedirs(os.path.join(OUT, "replays"), exist_ok=True)
+        path = os.path.join(OUT, "replays", "%s-%s-%d-%d.json" % (self.pid, self.tier, self.seed, len(self.violations)))
         with open(path, "w") as f:
             json.dump({"property": self.pid, "what": what, "tier": self.tier, "seed": self.seed, "replay": replay},
                       f, indent=1, default=str)
@@ -193,7 +195,7 @@ def _write_evidence(ctx, meta, status):
         "wall_s": round(time.time() - ctx.t0, 2),
         "violations": len(ctx.violations),
     }
-    d = os.path.join(VERIF, "evidence")
+    d = os.path.join(OUT, "evidence")
     os.makedirs(d, exist_ok=True)
     tmp = os.path.join(d, "%s.json.tmp" % ctx.pid)
     with open(tmp, "w") as f:
